@@ -1,6 +1,6 @@
 From Stam Require Import Base.Tac Model.Offset Model.Store Model.StoreObs Spec.StoreSpec
      Proofs.StoreScan Proofs.StoreInv Proofs.StoreDataDef Proofs.StoreRemove Proofs.StoreRemove2
-     Proofs.StoreRemove3 Proofs.StoreData Proofs.StoreExact Proofs.StoreExactData Proofs.StoreSets Proofs.StoreExactKey Proofs.StoreSuccess Props.C02.
+     Proofs.StoreRemove3 Proofs.StoreData Proofs.StoreExact Proofs.StoreExactData Proofs.StoreSets Proofs.StoreExactKey Proofs.StoreSuccess Proofs.StoreFrame Props.C02.
 Check (C02_nothing_dangles : forall ops, let s := run ops in ann_refs_ok s /\ item_refs_ok s /\ data_ok s).
 Check (C02_every_step_keeps_the_store_sound : forall s o, Good s -> Good (fst (step s o))).
 Check (C02_remove_annotation_cascade : forall ex fuel s h,
@@ -49,3 +49,4 @@ Print Assumptions C02_remove_annotation_cascade.
 Print Assumptions C02_fuel_suffices.
 Print Assumptions C02_remove_data.
 Print Assumptions C02_removals_succeed.
+Print Assumptions C02_touches_nothing_else.
